@@ -127,6 +127,186 @@ def run_line_buffers(facts, out, eff=None):
     return eff
 
 
+# ----------------------------------------------------------------------------- BZ
+
+BZ_ADT = 'section::hit_objects::slider::curve::BezierBuffers'
+BZ_NEUTRAL = {'deref', 'deref_mut', 'as_mut_slice', 'as_slice', 'as_mut', 'as_ref', 'borrow_mut', 'borrow'}
+BZ_GROWERS = {'section::hit_objects::slider::curve::BezierBuffers::extend_exact'}
+BZ_DERIVES = ('std::clone::Clone', 'std::default::Default', 'std::fmt::Debug', 'std::cmp::PartialEq')
+
+
+def run_bezier(facts, out):
+    """C18: the Bezier scratch vectors only ever grow and are never cleared, so beyond the current
+    segment's point count they hold what an earlier, longer segment left there.  Necessary condition
+    for purity: nothing uses such a vector *as a whole* (iterating it, taking its length, copying
+    it); every access is an element access or a range index (`v[..count]`, `v[1..count]`), or hands
+    the vector on to a function that obeys the same rule.  (That the elements below `count` are
+    written before they are read is index-level and not decided.)"""
+    a = facts.adts.get(BZ_ADT)
+    out.anchor('BZ', 'struct BezierBuffers', a is not None)
+    if a is None:
+        return
+    fields = {f['name'] for f in a['variants'][0]['fields'] if f['ty']['s'].startswith('std::vec::Vec<')}
+    out.anchor('BZ', 'grow-only scratch vectors of BezierBuffers', len(fields) >= 3, str(sorted(fields)))
+    # scratch parameters per function, found by propagation from the fields
+    scratch_params = {}
+    work = []
+    seeds = set()
+    for p, b in facts.bodies.items():
+        if any(('<%s as %s' % (BZ_ADT, d)) in p for d in BZ_DERIVES) or 'CurveBuffers as' in p:
+            continue
+        if _bz_seed_locals(b, fields):
+            seeds.add(p)
+            work.append(p)
+    seen_fn = set()
+    violations = {}
+    checked = 0
+    while work:
+        p = work.pop()
+        key = (p, tuple(sorted(scratch_params.get(p, ()), key=str)))
+        if key in seen_fn:
+            continue
+        seen_fn.add(key)
+        b = facts.bodies[p]
+        S = set(x for x in scratch_params.get(p, ()) if isinstance(x, int)) | _bz_seed_locals(b, fields)
+        caps = {x[1] for x in scratch_params.get(p, ()) if isinstance(x, tuple)}
+        if caps:
+            # closure body: captured scratch references are fields of the closure environment (_1)
+            for blk in b.blocks:
+                for st in blk['st']:
+                    if st['k'] != 'assign' or st['pl']['p']:
+                        continue
+                    rv = st['rv']
+                    pl = op_place(rv['op']) if rv['k'] in ('use', 'cast') else (rv['pl'] if rv['k'] in ('ref', 'rawptr') else None)
+                    if pl is not None and pl['l'] == 1 and not _has_index(pl):
+                        fl = [e for e in pl['p'] if e['k'] == 'field']
+                        if fl and fl[0].get('i') in caps:
+                            S.add(st['pl']['l'])
+        bounded = set()
+        changed = True
+        # propagate through copies, reborrows and neutral calls
+        while changed:
+            changed = False
+            for bi, blk in enumerate(b.blocks):
+                if blk.get('cleanup'):
+                    continue
+                for st in blk['st']:
+                    if st['k'] != 'assign' or st['pl']['p']:
+                        continue
+                    rv = st['rv']
+                    src = None
+                    if rv['k'] in ('use', 'cast'):
+                        pl = op_place(rv['op'])
+                        src = pl['l'] if pl is not None and not _has_index(pl) else None
+                    elif rv['k'] in ('ref', 'rawptr'):
+                        src = rv['pl']['l'] if not _has_index(rv['pl']) and not _other_field(rv['pl'], fields) else None
+                    if src in S and st['pl']['l'] not in S:
+                        S.add(st['pl']['l'])
+                        changed = True
+                t = blk['term']
+                if t['k'] == 'call':
+                    c = callee_of(t)
+                    if c and c['name'] in BZ_NEUTRAL and t['args']:
+                        l0 = op_local(t['args'][0])
+                        d = t.get('dest', {}).get('l') if isinstance(t.get('dest'), dict) else None
+                        if l0 in S and d is not None and d not in S:
+                            S.add(d)
+                            changed = True
+        if p in BZ_GROWERS:
+            continue
+        # closures capturing a scratch reference: their bodies are checked like callees
+        for bi, blk in enumerate(b.blocks):
+            if blk.get('cleanup'):
+                continue
+            for st in blk['st']:
+                if st['k'] == 'assign' and st['rv']['k'] == 'aggr' and st['rv'].get('closure'):
+                    ks = {('c', k) for k, o in enumerate(st['rv']['ops']) if op_local(o) in S}
+                    cp = st['rv']['closure']
+                    if ks and cp in facts.bodies:
+                        old = scratch_params.get(cp, set())
+                        if not ks <= old:
+                            scratch_params[cp] = old | ks
+                        work.append(cp)
+        # check every use
+        bad = []
+        for bi, blk in enumerate(b.blocks):
+            if blk.get('cleanup'):
+                continue
+            t = blk['term']
+            if t['k'] != 'call':
+                continue
+            c = callee_of(t)
+            arg_locals = [op_local(x) for x in t['args']]
+            if not any(l in S for l in arg_locals if l is not None):
+                continue
+            checked += 1
+            if c is None:
+                bad.append((t, 'an unresolved call'))
+                continue
+            if c['name'] in BZ_NEUTRAL:
+                continue
+            full = c.get('full', '')
+            if c['path'] in ('std::ops::Index::index', 'std::ops::IndexMut::index_mut'):
+                if 'Range' in full and 'RangeFull' not in full and 'RangeFrom' not in full:
+                    continue        # v[..n], v[a..n], v[a..=n]: bounded above
+                if 'Range' not in full:
+                    continue        # v[i]
+                bad.append((t, 'an index range without an upper bound (`%s`)' % full.split(' as ')[-1]))
+                continue
+            if c['path'] in facts.bodies and c['path'] not in BZ_GROWERS:
+                # hand-over to a crate function: its parameters become scratch
+                idxs = {i + 1 for i, l in enumerate(arg_locals) if l in S}
+                old = scratch_params.get(c['path'], set())
+                if not idxs <= old:
+                    scratch_params[c['path']] = old | idxs
+                work.append(c['path'])
+                continue
+            if c['path'] in BZ_GROWERS:
+                continue
+            bad.append((t, '`%s`' % (c.get('full') or c['path'])))
+        for t, what in bad:
+            violations.setdefault(p, []).append((t, what))
+    fns = sorted({k[0] for k in seen_fn})
+    out.anchor('BZ', 'functions handling the Bezier scratch vectors', len(fns) >= 3, str(fns))
+    for p in fns:
+        b = facts.bodies[p]
+        v = violations.get(p, [])
+        ok = not v
+        out.add('BZ', p, 'bounded-use', loc_of(v[0][0]['sp']) if v else '%s:%d' % (b.file, b.line), ok,
+                '' if ok else ('a grow-only Bezier scratch vector is used as a whole by %s: beyond the current segment it '
+                               'still holds the points of an earlier, longer segment, so the curve would depend on what was '
+                               'computed with these buffers before') % v[0][1],
+                {'uses': [w for _t, w in v]} if v else None, ordinal=False)
+    out.add('BZ', BZ_ADT, 'inventory', 'crate', True, '', {'call_sites_examined': checked, 'trivial': True}, ordinal=False)
+
+
+def _has_index(pl):
+    return any(e['k'] in ('index', 'constindex', 'subslice') for e in pl['p'])
+
+
+def _other_field(pl, fields):
+    """the place projects into something other than (a path ending in) a scratch field"""
+    fs = [e['n'] for e in pl['p'] if e['k'] == 'field']
+    return bool(fs) and fs[-1] not in fields
+
+
+def _bz_seed_locals(b, fields):
+    """locals assigned `&mut <..>.<scratch field>` where the field belongs to BezierBuffers"""
+    S = set()
+    for bi, blk in enumerate(b.blocks):
+        if blk.get('cleanup'):
+            continue
+        for st in blk['st']:
+            if st['k'] != 'assign' or st['pl']['p']:
+                continue
+            rv = st['rv']
+            if rv['k'] in ('ref', 'rawptr'):
+                fl = [e for e in rv['pl']['p'] if e['k'] == 'field']
+                if fl and fl[-1]['n'] in fields and fl[-1].get('adt', BZ_ADT) == BZ_ADT and not _has_index(rv['pl']):
+                    S.add(st['pl']['l'])
+    return S
+
+
 # ----------------------------------------------------------------------------- CI
 
 def run_cache(facts, out):
